@@ -310,6 +310,19 @@ def forObjs {α : Type} (l : List α) (body : α → α × Bool) : List α × Bo
     if (body x).2 then ((body x).1 :: rest, true)
     else (((body x).1 :: (forObjs rest body).1), (forObjs rest body).2)
 
+/-- `forObjs` for a body that may raise: each round ends in (the object as it is then, `.ok returned?` or the exception);
+    an exception ends the loop like a `return` does (the objects after that one are not visited) -/
+def forObjsE {α : Type} (l : List α) (body : α → α × Except Err Bool) : List α × Except Err Bool :=
+  match l with
+  | [] => ([], .ok false)
+  | x :: rest =>
+    match (body x).2 with
+    | .ok false => (((body x).1 :: (forObjsE rest body).1), (forObjsE rest body).2)
+    | r => ((body x).1 :: rest, r)
+
+/-- the list after its last element (an object that was appended and is still held by a local) was mutated -/
+def setLast {α : Type} (l : List α) (x : α) : List α := l.dropLast ++ [x]
+
 /-- `bytearray.append(v)`: ValueError unless `v` is in range(256) -/
 def appendByteE (x : Bytes) (v : Int) : Except Err Bytes :=
   if v < 0 ∨ v ≥ 256 then .error .value else .ok (x ++ [UInt8.ofNat v.toNat])
